@@ -274,6 +274,10 @@ def _profiles(IM, origin, rmax, order, odd, weights, verbose):
 
     if verbose:
         print('Extracting radial profiles...')
+    if not isinstance(origin, str):
+        # (own immutable copy: a list can be changed by the caller later,
+        # and arrays cannot be compared as a whole)
+        origin = tuple(origin)
     prm = [IM.shape, origin, rmax, order, odd]
     if weights is None:
         same_weights = _weights is None
